@@ -175,7 +175,20 @@ def model(spec):
                     else:
                         V += h["W"] * gauss(h, x)[0]
                 scale = math.exp(-V / (spec["biastemp"] * KB))
-            hills.append({"c": list(x), "W": spec["W"] * scale, "projected": False, "ext": None, "it": e["it"]})
+                # the bias the height is taken from is itself only known to the tolerance of the evaluation below (off the grid the
+                # code leaves out the tails of tabulated hills; earlier heights carry their own uncertainty): propagate it
+                yv = centre if (spec["use_grids"] and on_grid) else x
+                v_unc = sum(h["dW"] * gauss(h, yv)[0] for h in hills if h["dW"])
+                if spec["use_grids"] and not on_grid:
+                    v_unc += 2e-4 * sum(h["W"] for h in hills)
+                rel_unc = v_unc / (spec["biastemp"] * KB)
+                if rel_unc > 1e-3:
+                    info["tol_blowup"] = True     # the case no longer decides anything: reported as trivial
+                    rel_unc = 1e-3
+                dW = spec["W"] * scale * (math.exp(rel_unc) - 1.0)
+            else:
+                dW = 0.0
+            hills.append({"c": list(x), "W": spec["W"] * scale, "projected": False, "ext": None, "it": e["it"], "dW": dW})
         # --- projection
         if spec["use_grids"] and spec["gfreq"] > 0 and e["it"] % spec["gfreq"] == 0:
             for h in hills:
@@ -205,6 +218,9 @@ def model(spec):
             for i in range(nv):
                 F[i] += h["W"] * g * diff(i, y[i], h["c"][i]) / (sig[i] * sig[i])
         sumW = sum(h["W"] for h in hills)
+        tol_extra += sum(h["dW"] for h in hills)
+        if info.get("tol_blowup"):
+            tol_extra += 1e300
         if spec["use_grids"] and not on_grid:
             tol_extra += 2e-4 * sumW
             info["offgrid"] += 1
@@ -251,6 +267,8 @@ def check_meta(spec, ctx):
             if abs(got - m["F"][i]) > tolF:
                 return Outcome(False, msg="evaluation %d (step %d, %d hills) variable %d: force %r, sum of hills %r (tol %.2g)" %
                                (k, s["it"], m["nh"], i, got, m["F"][i], tolF), sig="force", case_text=case)
+    if info.get("tol_blowup"):
+        return Outcome(True, nontrivial=False, cls=("tol_blowup",), strata=["tol_blowup"], case_text=case)
     nontrivial = len(hills) >= 3 and (info["n_off_after_edge_hill"] >= 1 or info["mixed"] >= 1 or not spec["use_grids"])
     cls = ("nv%d" % nv, "grids" if spec["use_grids"] else "nogrids", "wt" if spec["wt"] else "", "sig" if spec["sig_mode"] else "hw",
            "per" if any(spec["periodic"]) else "", "keep" if spec["keep"] else "", "expand" if any(spec["expand"]) else "",
@@ -274,7 +292,7 @@ def sample_view(spec):
     return d
 
 
-PARTS = {"meta": {"strategy": spec_meta, "check": check_meta, "examples": {"quick": 3000, "thorough": 60000}, "sample": sample_view}}
+PARTS = {"meta": {"strategy": spec_meta, "check": check_meta, "examples": {"quick": 15000, "thorough": 60000}, "sample": sample_view}}
 REQUIRED_STRATA = {"all": ["meta:grids", "meta:nogrids", "meta:wt", "meta:sig", "meta:per", "meta:keep", "meta:expand", "meta:gf",
                            "meta:offgrid_after_edge_hill", "meta:mixed_tabulated_untabulated", "meta:grid_expanded", "meta:nv2"]}
 
@@ -359,5 +377,5 @@ def check_vec(spec, ctx):
                    case_text=case)
 
 
-PARTS["vector"] = {"strategy": spec_vec, "check": check_vec, "examples": {"quick": 1000, "thorough": 16000}, "sample": lambda s_: {k: v for k, v in s_.items() if k != "steps"}}
+PARTS["vector"] = {"strategy": spec_vec, "check": check_vec, "examples": {"quick": 5000, "thorough": 16000}, "sample": lambda s_: {k: v for k, v in s_.items() if k != "steps"}}
 REQUIRED_STRATA["all"] = REQUIRED_STRATA["all"] + ["vector:vec:distanceVec", "vector:vec:distanceDir", "vector:vec:wt"]
